@@ -29,7 +29,7 @@ func ruleCSVWriters(c *core.Ctx, rule string) {
 				if !ok {
 					continue
 				}
-				cal := ci.Common().StaticCallee()
+				cal := core.Callee(ci.Common())
 				full := ""
 				if cal != nil {
 					full = cal.String()
@@ -109,6 +109,19 @@ func ruleCSVRows(c *core.Ctx, ruleNames, ruleNums string) {
 							badNums = append(badNums, fmt.Sprintf("field %d is formatted with %q, not a single fixed-precision verb %%.Nf: precision is not fixed (%%g/%%v/%%e switch notation for tiny or large amounts)", i, fs))
 						} else {
 							fields[fmt.Sprintf("field %d: number %s", i, fs)] = true
+						}
+						// what is formatted is the entry's own amount, not something computed from it on the way
+						if at, ok := v.Args[1].(*absint.Term); ok && at.Op == "slice" {
+							if ap, ok := at.Args[0].(absint.Ptr); ok {
+								if av, ok := s.Heap[ap.Loc+"[c:0]"]; ok {
+									if iv, isI := av.(*absint.Iface); isI {
+										av = iv.V
+									}
+									if loc := locOf(x, av); !strings.HasSuffix(loc, "·Value") {
+										badNums = append(badNums, fmt.Sprintf("field %d formats %s, not the amount of the entry as parsed: a value that is adjusted before formatting (clamped, truncated, scaled) is no longer within half a unit of the last digit of the true value", i, av.Key()))
+									}
+								}
+							}
 						}
 					case v.Op == "call:strconv.FormatFloat" && len(v.Args) == 4:
 						// FormatFloat(x, 'f', N, 64) is the %.Nf rendering
@@ -209,14 +222,15 @@ func ruleCSVDialect(c *core.Ctx, rule string) {
 func init() {
 	register(&Property{
 		ID:    "C13",
-		Rules: []string{"C13-R1", "C13-R2", "C13-R3", "C13-R4", "C13-R5", "C01-R1", "C01-R2", "C01-R4", "C01-R5", "C02-R5", "C06-R7", "C04-R1", "C04-R3", "C14-R1"},
+		Rules: []string{"C13-R1", "C13-R2", "C13-R3", "C13-R4", "C13-R5", "C01-R1", "C01-R2", "C01-R4", "C01-R5", "C02-R5", "C06-R7", "C04-R1", "C04-R3", "C14-R1", "C07-R6"},
 		Explain: "Decides the mechanisms that make the CSV exports lossless: C13-R1 in package csv the output is written only through encoding/csv.Writer (quoting of commas, quotes and line breaks is the library's); C13-R2 the name fields of each row are the parsed Name/Header values untouched; " +
 			"C13-R3 the separator's only source is the constant ',' and row dates use the constant ISO layout; C13-R4 each amount is fmt.Sprintf(constant %.Nf, value) used as is (Go's %f is correctly rounded); C13-R5 the resolved export collects recipe names and sorts them (element order inside a recipe is C01's); " +
 			"C01-R4 and C02-R5 (shared) one row per (recipe, resolved element) and per (day, distinct food) rests on the two merge-by-name loops keeping one slot per name in first-appearance position; " +
-			"C14-R1 (shared) the only constant-only layout in the tree is the ISO layout 2006-01-02 of the CSV rows; C06-R7 (shared) row dates are the log's own dates: nothing converts them to another zone; C04-R1/R3 (shared) names reach the exporter as the tokenizer cut them at the last blank, with the documented trim sets (no field splitting that would collapse inner blanks).",
+			"C14-R1 (shared) the only constant-only layout in the tree is the ISO layout 2006-01-02 of the CSV rows; C06-R7 (shared) row dates are the log's own dates: nothing converts them to another zone; C04-R1/R3 (shared) names reach the exporter as the tokenizer cut them at the last blank, with the documented trim sets (no field splitting that would collapse inner blanks). Also: C13-R4 requires the value formatted into an amount field to be the entry's own parsed amount. Shared: C07-R6.",
 		NotDecided:  "that reading the output back yields the same strings (follows from R1+R2 and the library), the number of rows per day, what the precision is",
 		Assumptions: []string{"encoding/csv quotes fields per RFC 4180", "fmt's %f formatting is correctly rounded"},
 		Run: func(c *core.Ctx) {
+			ruleEveryEntrySeen(c, "C07-R6")
 			ruleCSVWriters(c, "C13-R1")
 			ruleCSVRows(c, "C13-R2", "C13-R4")
 			ruleCSVDialect(c, "C13-R3")
